@@ -52,6 +52,9 @@ type mthread struct {
 	pending *pendingOp
 	done    bool
 	started bool
+	// abandoned: registered (a go statement was executed) but never started when the run ended (horizon, stall, a panic
+	// of the explorer): its goroutine is let go instead of waiting for ever - with everything its closure holds
+	abandoned bool
 	// arrived: the thread's pending operation is visible to the others. Arrival is a transition of
 	// its own only while some pending operation is a select with a default case (a non-blocking
 	// operation observes whether its partner is already waiting); otherwise arrival order is
@@ -126,6 +129,9 @@ func (s *Sched) Go(name string, fn func()) {
 	s.threads = append(s.threads, t)
 	go func() {
 		<-t.resume
+		if t.abandoned {
+			return // the run ended before this thread was ever started
+		}
 		defer func() {
 			// a panic of the code under test inside a thread (e.g. close of a closed channel) ends that thread; it is
 			// recorded, the other threads go on (in a real program it would end the process)
@@ -286,9 +292,13 @@ func (s *Sched) runThread(t *mthread) {
 	t.pending = nil
 	t.arrived = false
 	t.resume <- struct{}{}
+	// (a timer that is stopped as soon as the thread yields: time.After would keep one alive per step for the whole
+	// grace period - millions of them in a long exploration)
+	valve := time.NewTimer(120 * time.Second)
 	select {
 	case <-s.yield:
-	case <-time.After(120 * time.Second):
+		valve.Stop()
+	case <-valve.C:
 		s.Stalled = true
 		panic(schedStall{})
 	}
@@ -519,6 +529,13 @@ func (s *Sched) Run() {
 			s.cur = t
 			t.resume <- struct{}{}
 			<-s.yield
+		}
+	}
+	for _, t := range s.threads {
+		if !t.done && !t.started {
+			t.abandoned = true
+			t.done = true
+			t.resume <- struct{}{}
 		}
 	}
 	s.cur = nil
